@@ -155,12 +155,21 @@ def check_init_pairing(run, rule):
     # children pairing
     ok_pair = False
     for n in own_nodes(fi.node):
-        if isinstance(n, ast.For) and common.is_name(n.iter, "children") and isinstance(n.target, ast.Name):
+        # the loop runs over the argument itself or over self.children (which holds the argument whenever it is non-empty)
+        if isinstance(n, ast.For) and (common.is_name(n.iter, "children") or common.is_attr(n.iter, slf, "children")) and isinstance(n.target, ast.Name):
             for st in n.body:
                 if isinstance(st, ast.Assign) and len(st.targets) == 1 and common.is_attr(st.targets[0], n.target.id, "parent") and common.is_name(st.value, slf):
                     ok_pair = True
     ch = stores.get("children", [])
-    ok_children = any(common.is_name(v, "children") for v in ch) and any(isinstance(v, ast.List) and not v.elts for v in ch)
+    def _leaves(v):
+        if isinstance(v, ast.IfExp):
+            return _leaves(v.body) + _leaves(v.orelse)
+        if isinstance(v, ast.BoolOp) and isinstance(v.op, ast.Or):
+            return [x for y in v.values for x in _leaves(y)]
+        return [v]
+    leaves = [x for v in ch for x in _leaves(v)]
+    ok_children = bool(leaves) and any(common.is_name(v, "children") for v in leaves) and any(isinstance(v, ast.List) and not v.elts for v in leaves) and \
+        all(common.is_name(v, "children") or (isinstance(v, ast.List) and not v.elts) for v in leaves)
     run.ob(rule, "node.Node.__init__/children-parent-pairing", ok_pair, f"{nm.rel}:{fi.lineno}",
            "every child handed to the constructor gets parent = the new node", "no `child.parent = self` loop over the children argument",
            mech="store census")
